@@ -17,8 +17,9 @@ from collections.abc import Mapping
 from .. import common, impl, tlc, tlcx
 
 RULE = ("all (d1,d2,overwrite) of spec/DictUtils.tla's bounded universes (TLC enumerates the initial states; depth<=2, "
-        "<=MaxMention keys per patch incl. deletions/None placeholders/extras/new keys) and all (list,key,value) with "
-        "lists of <=3 (4) items with and without the key: update/find/findall/findunique/findkey on plain dicts and on "
+        "<=MaxMention keys per patch incl. deletions/None placeholders/one or two extras/new keys/new object lists; "
+        "existing values incl. the falsy '' 0 None) and all (list,key,value) with lists of <=3 (4) items with and "
+        "without the key, scalar, falsy and list-valued keywords, scalar and list search values: update/find/findall/findunique/findkey on plain dicts and on "
         "Mapfile dicts return the spec's result and leave the arguments in the spec's post-state; random patch "
         "histories (TLC -simulate) chained on the returned object; the spec satisfies UpdateLaws/FindLaws")
 
@@ -291,8 +292,8 @@ def check_findkey(ck, case, variant):
 
 
 # ----------------------------------------------------------------------------- TLC jobs
-def constants(big=False, mention=2, maxlist=2, vary=3, ow=(False, True), names=(0, 1, 2, 3), hist=3, bug="none"):
-    return {"Big": big, "MaxMention": mention, "MaxList": maxlist, "Vary": vary,
+def constants(big=False, mention=2, maxlist=2, vary=3, kinds=("find", "findall", "findunique", "findkey"), ow=(False, True), names=(0, 1, 2, 3), hist=3, bug="none"):
+    return {"Big": big, "MaxMention": mention, "MaxList": maxlist, "Vary": vary, "FindKinds": set(kinds),
             "OwSet": "@{%s}" % ", ".join("TRUE" if o else "FALSE" for o in ow), "NameOpts": set(names),
             "MaxHist": hist, "Bug": bug}
 
@@ -313,6 +314,11 @@ def hist_job(tag, n, seed, hist=4, **kw):
                 seed=seed, timeout=3000, heap="2g", env=JVM)
 
 
+def find_jobs(name, **kw):
+    return [("find", "%s-%s" % (name, "+".join(k)), find_job("c18_f_%s" % k[0], kinds=k, **kw))
+            for k in (("find",), ("findall",), ("findunique", "findkey"))]
+
+
 def plan(tier, seed):
     jobs = []
     if tier == "quick":
@@ -321,7 +327,7 @@ def plan(tier, seed):
             jobs.append(("update", "m2-l1-v1-ow%d" % ow, update_job("c18_u21_%d" % ow, mention=2, maxlist=1, vary=1, ow=(ow,))))
         jobs.append(("update", "m1-l2-v1", update_job("c18_u12", mention=1, maxlist=2, vary=1)))
         jobs.append(("update", "m1-l1-v3", update_job("c18_u11", mention=1, maxlist=1, vary=3)))
-        jobs.append(("find", "lists3", find_job("c18_f")))
+        jobs += find_jobs("lists3")
         jobs.append(("history", "h4", hist_job("c18_h", 300, seed + 1)))
     else:
         for ow in (False, True):
@@ -331,12 +337,15 @@ def plan(tier, seed):
                 jobs.append(("update", "big-m1-l2-v3-n%d-ow%d" % (nm, ow), update_job("c18_ub12_%d_%d" % (nm, ow), big=True, mention=1,
                                                                                     maxlist=2, vary=3, names=(nm,), ow=(ow,))))
             jobs.append(("update", "m4-l1-v3-ow%d" % ow, update_job("c18_u41_%d" % ow, mention=4, maxlist=1, vary=3, ow=(ow,))))
-        jobs.append(("find", "lists4", find_job("c18_f", big=True, maxlist=1)))
+        jobs += find_jobs("lists4", big=True, maxlist=1)
         for i in range(4):
             jobs.append(("history", "h5-%d" % i, hist_job("c18_h%d" % i, 2500, seed * 10 + i + 1, hist=5, big=True)))
     for bug, (which, _) in NEGATIVE.items():
-        mk = update_job if which == "u" else find_job
-        jobs.append(("negative", bug, mk("c18_neg_%s" % bug, mention=1, maxlist=1, bug=bug)))
+        if which == "u":
+            jobs.append(("negative", bug, update_job("c18_neg_%s" % bug, mention=1, maxlist=1, vary=1, bug=bug)))
+        else:
+            jobs.append(("negative", bug, find_job("c18_neg_%s" % bug, kinds=("find",) if bug == "findByMembership" else ("findall",),
+                                                   bug=bug)))
     return jobs
 
 
